@@ -90,6 +90,15 @@ check("C13", "model_checking",
       "strictness (33-byte rule) is validated by C09's TextFormat observations.", TERM_NOTE,
       "TLA+ L1 spec (Construct) + TLC term generation + evaluation with independent primitives + TLC observation-set validation", "§4 C13")
 
+check("C08", "model_checking",
+      "Keys.tla defines, per (version, key kind), which byte strings are keys (length tables, scalar range computed in TLA+, curve membership "
+      "and seed->public as predicates answered by an oracle independent of the backend) and what must hold of every accepted key; MC_Keys "
+      "explores the table; every byte string of length 0..128 and a catalogue of degenerate encodings are offered to every backend and each "
+      "outcome (accept/reject, re-encode, reparse, clone, public half, sign/verify) is validated by TLC.",
+      "Trusted: TLC, the oracles (p384 crate <-> aws-lc, dalek <-> libsodium, a 15-line big-integer curve test, aws-lc's RSA DER parser), the "
+      "harness recorder (negative control each run).",
+      "TLA+ spec (Keys) + TLC MC of the validity table + TLC observation-set validation with independent oracles", "§4 C08")
+
 
 def na(pid, reason):
     NOT_APPLICABLE[pid] = reason
